@@ -31,7 +31,7 @@ if __name__=='__main__':
     checks=[c['property_id'] for c in json.load(open(f'{VERIF}/MANIFEST.json'))['checks']]
     names=sys.argv[1:] or sorted(f for f in os.listdir(f'{VERIF}/benign') if f.endswith('.diff'))
     out={}; rc=0
-    with ThreadPoolExecutor(max_workers=2) as ex:
+    with ThreadPoolExecutor(max_workers=int(os.environ.get("VERIF_WORKERS", "2"))) as ex:
         for name,res in ex.map(lambda s: one(s,checks), names):
             out[name]=res
             al=[c for c,r in res.items() if isinstance(r,dict) and (r.get('alarms') or r.get('exit'))]
